@@ -35,7 +35,7 @@ CFG = {
         "one case = one call of pipe.NormalizeSlotIndex (all pairs of 16-26 boundary hashes x 18 lane counts incl. 0 and negatives, plus random "
         "ones), or one forced schedule of one executor (random plan over run / submit / release gate / cancel context / Stop with 1-9 calls, "
         "queue sizes 0,1,2,3,8, MultiLine lane counts 1,2,7,509 with hashes from the boundary set and colliding partners, RunnerQ calls spread "
-        "over AsyncCall / AsyncDelegate / AsyncProc), or one unforced burst of 4-9 concurrent callers, or one stop-vs-submit round (fresh executor, 8-128 submitters and one Stop released from a barrier; 3800 rounds in the quick tier, 24000 thorough; every round is screened in Go by counters, the rounds the screen flags and a sample of the others are decided in Coq; \"accepted but never run\" is established positively - lane goroutines returned, caller consulted its context, callee never entered - not by a deadline), or one round of 2-4 independent instances of one executor kind driven at the same time with disjoint call ids (class instances-*: per instance every clause holds under every schedule since instances share nothing by contract; 300 rounds RunnerQ, 40 each other kind, screened like stop-vs-submit), or one line-reuse schedule (Line only: each caller keeps ONE line.CallCtx value and re-submits it with a new Param once its previous AsyncCall has returned, typically after its context ended while the call was queued; 150 forced schedules), or one instance of a shared-callctx group (120 groups: ONE mline.CallCtx value per key, prepared once, handed to 2-3 MultiLine instances with different lane counts - 4 then 5, 8 then 3, 7 then 509, ... - and several times to each, mixed with fresh contexts of equal hash, hashes incl. MinInt / MaxInt / negatives; the instances are driven one after the other by forced schedules and each is its own case: lane = NormalizeSlotIndex(hash, lane count of THAT instance) whatever the context value went through before; likewise two line.Line instances sharing the line.CallCtx values of the owners), or one long-backlog history (call 1 held, N-1 calls queued behind it, all let go, N in 1023..1027, 2048..2051, 3100; or a window of 1-3 queued calls kept non-empty over 1100 / 2100 calls); a schedule case is non-trivial when at "
+        "over AsyncCall / AsyncDelegate / AsyncProc), or one unforced burst of 4-9 concurrent callers, or one stop-vs-submit round (fresh executor, 8-128 submitters and one Stop released from a barrier; 3800 rounds in the quick tier, 24000 thorough; every round is screened in Go by counters, the rounds the screen flags and a sample of the others are decided in Coq; \"accepted but never run\" is established positively - lane goroutines returned, caller consulted its context, callee never entered - not by a deadline), or one round of 2-4 independent instances of one executor kind driven at the same time with disjoint call ids (class instances-*: per instance every clause holds under every schedule since instances share nothing by contract; 300 rounds RunnerQ, 40 each other kind, screened like stop-vs-submit), or one line-reuse schedule (Line only: each caller keeps ONE line.CallCtx value and re-submits it with a new Param once its previous AsyncCall has returned, typically after its context ended while the call was queued; 150 forced schedules), or one instance of a shared-callctx group (120 groups: ONE mline.CallCtx value per key, prepared once, handed to 2-3 MultiLine instances with different lane counts - 4 then 5, 8 then 3, 7 then 509, ... - and several times to each, mixed with fresh contexts of equal hash, hashes incl. MinInt / MaxInt / negatives; the instances are driven one after the other by forced schedules and each is its own case: lane = NormalizeSlotIndex(hash, lane count of THAT instance) whatever the context value went through before; likewise two line.Line instances sharing the line.CallCtx values of the owners), or one Run-again schedule (Run() called twice / three times before and after the first submissions on Line, RunnerQ, ProcChan - guarded by a sync.Once on the unchanged code; gated callee with two or more calls queued; 15 deterministic schedules per run plus rare random insertion; MultiLine.Run is not guarded as the code is and stays out), or one long-backlog history (call 1 held, N-1 calls queued behind it, all let go, N in 1023..1027, 2048..2051, 3100; or a window of 1-3 queued calls kept non-empty over 1100 / 2100 calls); a schedule case is non-trivial when at "
         "least two calls were accepted, a slot case when the hash is negative or >= the lane count; distinct = distinct Coq term"),
     "trusted": [
         "forced-schedule driver: per-call gate channels, harness-owned context.Context counting Done() calls, waits on conditions over recorded facts with a 10 s bound that only a real hang can reach",
